@@ -61,6 +61,19 @@ impl fmt::Display for Scope {
     }
 }
 
+/// A public key written in Datalog source is only known to be an algorithm name and hex
+/// digits: its bytes are checked here, before the infallible conversion of the parsed item.
+pub(super) fn check_parsed_scopes(
+    scopes: &[biscuit_parser::builder::Scope],
+) -> Result<(), error::Token> {
+    for scope in scopes {
+        if let biscuit_parser::builder::Scope::PublicKey(pk) = scope {
+            PublicKey::from_bytes(&pk.key, pk.algorithm.clone().into())?;
+        }
+    }
+    Ok(())
+}
+
 impl From<biscuit_parser::builder::Scope> for Scope {
     fn from(scope: biscuit_parser::builder::Scope) -> Self {
         match scope {
